@@ -71,7 +71,9 @@ def _gen(rng, fresh):
     c = {"w": w, "batchsize": None, "num_batches": None, "where": rng.choice(["ctor", "sow"]),
          "shuffle": rng.choice([False, False, True, rng.randint(2, 9999)]), "shuffle_where": rng.choice(["ctor", "sow"]),
          "fresh": fresh, "by_value": fresh or rng.random() < 0.3, "pseed": rng.randint(0, 10 ** 9),
-         "spelling": rng.choice(["dict", "tuple", "list"]), "reload_before_reap": rng.random() < 0.6}
+         "spelling": rng.choice(["dict", "tuple", "list"]), "reload_before_reap": rng.random() < 0.6,
+         # the function is NOT written to disk: every grow is handed the function explicitly
+         "save_fn": False if (not fresh and rng.random() < 0.12) else None}
     r = rng.random()
     if r < 0.45:
         c["batchsize"] = rng.randint(1, n + 1)
@@ -151,6 +153,8 @@ def run_case(ctx, case):
         fn = cropkit.build_probe(kind, logfile, ctl=ctl, name="probe", by_value=case["by_value"])
         try:
             with quiet():
+                if case.get("save_fn") is False:
+                    ctor["save_fn"] = False
                 crop = xyzpy.Crop(fn=fn, name=name, parent_dir=tmp, **ctor)
                 if shuffle_attr is not None:
                     crop.shuffle = shuffle_attr
@@ -171,6 +175,11 @@ def run_case(ctx, case):
     # ------------------------------------------------------------------ grow
     grown = Counter()
     plan = _plan(rng, B)
+    nosave = case.get("save_fn") is False
+    if nosave:
+        ctx.count("unsaved_function_pipelines")
+        for st in plan:
+            st["how"] = "grow_fn" if st["how"] != "grow_missing" else "grow_missing_fn"
     if case.get("within_batch_pool"):
         ids_ = list(range(1, B + 1))
         rng.shuffle(ids_)
@@ -178,7 +187,7 @@ def run_case(ctx, case):
     for st in plan:
         how = st["how"]
         missing_now = [i for i in range(1, B + 1) if grown[i] == 0]
-        ids = missing_now if how == "grow_missing" else list(st["ids"])
+        ids = missing_now if how in ("grow_missing", "grow_missing_fn") else list(st["ids"])
         kw = {}
         if case.get("num_workers") and how in ("crop_grow", "grow_missing", "grow_fn"):
             kw["num_workers"] = 2
@@ -194,9 +203,15 @@ def run_case(ctx, case):
             try:
                 with quiet():
                     if st["reload"] or crop is None:
-                        crop = xyzpy.Crop(name=name, parent_dir=tmp)
+                        crop = xyzpy.Crop(name=name, parent_dir=tmp) if not nosave else \
+                            xyzpy.Crop(fn=fn, name=name, parent_dir=tmp, save_fn=False)
                         ctx.count("crop_reloads")
-                    if how == "grow_fn":
+                    if nosave:
+                        kw["fn"] = fn
+                    if how == "grow_missing_fn":
+                        for i in crop.missing_results():
+                            xyzpy.grow(i, crop=crop, verbosity=0, **kw)
+                    elif how == "grow_fn":
                         for i in ids:
                             xyzpy.grow(i, crop=crop, verbosity=0, **kw)
                     elif how == "grow_cwd":
@@ -231,7 +246,8 @@ def run_case(ctx, case):
         try:
             with quiet():
                 if case["reload_before_reap"]:
-                    crop = xyzpy.Crop(name=name, parent_dir=tmp)
+                    crop = xyzpy.Crop(name=name, parent_dir=tmp) if not nosave else \
+                        xyzpy.Crop(fn=fn, name=name, parent_dir=tmp, save_fn=False)
                 result = crop.reap()
         except Exception as e:
             return fail("reap raised %r" % (e,), step="reap", **exc_sig(e))
